@@ -20,6 +20,8 @@ def replay(d):
     targets = ['fa.l%d' % k for k in range(N)]
     if second:
         targets += ['fb%s.r0' % inst, 'fb%s.o0' % inst]
+        if b.get('instanced'):
+            targets.append('fb:1.r0')
     targets.append('nope.x')
     targets.append('fa.zz')
     input_names = ['fa.i%d' % j for j in range(M)]
